@@ -205,6 +205,7 @@ func TestC14(t *testing.T) {
 	}
 
 	flush()
+	rep.CorrIsSpec = true
 	rep.Assumptions = append(rep.Assumptions, "ASCII label values (strings.ToLower/TrimSpace on non-ASCII runes are outside the byte model)", "regexp engine for ID queries is trusted (ID queries are an opaque predicate in the model)")
 	rep.write(t, dir)
 }
